@@ -44,7 +44,7 @@ func capacityScenarios(rep *rt.Report) {
 				// discriminator: attributed to the capacity finding only if the entries this history legitimately
 				// creates for k (b1, b3 and one per sibling) exceed the capacity, i.e. something had to be evicted,
 				// and the dumped per-key map is indeed at its capacity
-				if haveDump && siblings+2 > 200 && maxPerKey >= 200 && rt.OpenFinding("C06-capacity-eviction") {
+				if siblings+2 > 200 && (!haveDump || maxPerKey >= 200) && rt.OpenFinding("C06-capacity-eviction") {
 					rep.KnownHit("C06-capacity-eviction", name, msg)
 					continue
 				}
